@@ -189,3 +189,6 @@ CLAIMED["C02"]["text"] = CLAIMED["C02"]["text"].replace("PROVED from the real AS
 CLAIMED["C03"]["text"] = CLAIMED["C03"]["text"].replace("PROVED from the real AST: _compute_lca_sets",
     "PROVED from the real AST: _compute_gain_sets - every family that occurs in a leaf is gained at exactly one node, the deepest common ancestor of the leaves carrying it, and nothing else is gained "
     "(three loops over arbitrary enumerations of a dict / a defaultdict of sets, the LCA query through its assumed C17 contract); _compute_lca_sets")
+
+CLAIMED["C15"]["text"] = CLAIMED["C15"]["text"].replace("All other clauses are bounded only.",
+    "Also proved: format_synteny on an ordered synteny returns the families in order joined by ', ' and, when a width is given, balanced_wrap of that text. All other clauses are bounded only.")
